@@ -17,17 +17,52 @@ def load_grammar(repo):
     return g, gp
 
 
+def _constructs_lexer(f):
+    return any(isinstance(n, ast.Call) and isinstance(n.func, ast.Name) and n.func.id.endswith('Lexer') for n in own_nodes(f.node))
+
+
 def pipeline_function(em):
-    """the function that builds lexer and parser (role: calls the generated lexer class)"""
-    out = []
-    for f in em.repo.all_functions(('compiler',)):
-        for n in own_nodes(f.node):
-            if isinstance(n, ast.Call) and isinstance(n.func, ast.Name) and n.func.id.endswith('Lexer'):
-                out.append(f)
+    """the compile pipeline, as helper-inlined views (sa/inline.py).  The first is *the* pipeline: the function the
+    library entry compile_prolog_from_string hands its input to (or that entry itself), with the helpers it is split
+    into pasted back in; ``view.origin`` is the real function.  Any other function of the compiler module that
+    constructs a lexer on its own follows (a second, separate pipeline)."""
+    cached = getattr(em, '_pipeline_views', None)
+    if cached is not None:
+        return cached
+    from .inline import inline_view
+    comp = em.repo.module('compiler')
+    api = comp.functions.get('compile_prolog_from_string')
+    views = []
+    if api is not None:
+        callees = []
+        for n, cs in em.cg.calls.get(api, ()):
+            for c in cs:
+                if c.module is comp and c.cls is None and c not in callees:
+                    callees.append(c)
+        for c in callees:
+            v = inline_view(em.repo, c)
+            if _constructs_lexer(v):
+                views.append(v)
                 break
-    if not out:
+        if not views:
+            v = inline_view(em.repo, api)
+            if _constructs_lexer(v):
+                views.append(v)
+    covered = set()
+    for v in views:
+        covered.add(v.origin)
+        covered.update(v.inlined)
+    for f in em.repo.all_functions(('compiler',)):
+        if f in covered or not _constructs_lexer(f):
+            continue
+        v = inline_view(em.repo, f)
+        views.append(v)
+        covered.add(f)
+        covered.update(v.inlined)
+    if not views:
         raise AnalysisError('anchor vanished: no function constructs the generated lexer')
-    return out
+    em._pipeline_views = views
+    return views
 
 
 def _assigned_from_ctor(f, suffix):
@@ -173,7 +208,7 @@ def rule_cli_exit(em, rep, rid, listener_classes):
     main = em.repo.find_func('compiler.main')
     if main is None:
         raise AnalysisError('anchor vanished: compiler.main')
-    pipes = pipeline_function(em)
+    pipes = [v.origin for v in pipeline_function(em)]
     # functions between main() and the pipeline function
     sites = []
     reach = em.cg.reachable([main], with_refs=False, include_nested=False)
